@@ -47,7 +47,7 @@ theorem step_ehOrphan (cfg : Cfg) (s t : St) (f : Bool) (h : Step cfg f s t) (in
     have l1 := le_tot (fun p => if p = .clWait then 1 else 0) _ _ _ hi
     have l2 := le_tot (fun p => if p = .srSet then 1 else 0) _ _ _ hi
     (try simp only [St.setDone, St.setBg]) <;> (repeat' split) <;> simp_all [tot_set_eq _ _ _ _ _ hi, tot_ackWs_tok, tot_ackWs_clw, tot_ackWs_srw, tokW, b2n_true, b2n_false, bgClk_run, bgClk_idle, bgClk_exited, bgClk_clearW, bphClk, St.bg, onOk, onErr, selNext, afterSetErr] <;> (try omega)
-  | startSR _ i hi =>
+  | startSR _ i hi ha =>
     have l0 := le_tot tokW _ _ _ hi
     have l1 := le_tot (fun p => if p = .clWait then 1 else 0) _ _ _ hi
     have l2 := le_tot (fun p => if p = .srSet then 1 else 0) _ _ _ hi
